@@ -44,10 +44,10 @@ theorem cell_xm_eq_s (j : Nat) : (cell sc cl x y j x.length).xm = (cell sc cl x 
 
 /-! ### first post-loop -/
 
-theorem post1Step_facts (hxs : cl.xs ≤ 0) (col : List Row) (i : Nat) (xm : Int) :
-    let p := post1Step cl x col i xm
-    xm ≤ p.xm ∧ p.s + cl.xs ≤ p.xm ∧ (col.getD i default).sn ≤ p.s ∧
-      (i < x.length → (col.getD i default).s ≤ p.s) ∧ (i = x.length → xm ≤ p.s ∧ p.s ≤ p.xm) := by
+theorem post1Step_facts (hxs : cl.xs ≤ 0) (col : List Row) (i : Nat) (p0 : PSt) :
+    let p := post1Step cl x col i p0
+    p0.xm ≤ p.xm ∧ p.s + cl.xs ≤ p.xm ∧ (col.getD i default).sn ≤ p.s ∧
+      (i < x.length → (col.getD i default).s ≤ p.s) ∧ (i = x.length → p0.xm ≤ p.s ∧ p.s ≤ p.xm) := by
   rw [post1Step_eq]
   dsimp only
   by_cases hm : i = x.length
@@ -68,7 +68,7 @@ theorem p1_inv (hxs : cl.xs ≤ 0) : ∀ i, i ≤ x.length →
     intro _
     dsimp only
     rw [post1_getD_zero]
-    have := post1Step_facts (x := x) hxs (colAt sc cl x y y.length) 0 (cell sc cl x y y.length x.length).xm
+    have := post1Step_facts (x := x) hxs (colAt sc cl x y y.length) 0 (p1init x (colAt sc cl x y y.length))
     dsimp only at this
     obtain ⟨h1, h2, h3, h4, h5⟩ := this
     exact ⟨h1, h2, h3, h4, h5, fun k hk => by omega⟩
@@ -78,7 +78,7 @@ theorem p1_inv (hxs : cl.xs ≤ 0) : ∀ i, i ≤ x.length →
     dsimp only at g1 ⊢
     rw [post1_getD_succ _ _ _ i hi]
     have := post1Step_facts (x := x) hxs (colAt sc cl x y y.length) (i + 1)
-      ((post1 cl x (colAt sc cl x y y.length)).getD i default).xm
+      ((post1 cl x (colAt sc cl x y y.length)).getD i default)
     dsimp only at this
     obtain ⟨h1, h2, h3, h4, h5⟩ := this
     refine ⟨by omega, h2, h3, h4, fun e => ⟨by have := (h5 e).1; omega, (h5 e).2⟩, fun k hk => ?_⟩
@@ -117,7 +117,7 @@ theorem post2Step_xm (s1 : List PSt) (i : Nat) (p : PSt) : p.xm ≤ (post2Step s
     split <;> dsimp only <;> omega
 
 theorem p2_final : ((post1 cl x (colAt sc cl x y y.length)).getD x.length default).xm ≤ (fill sc cl x y).score := by
-  simp only [fill]
+  rw [fill_score]
   have hmono := mono_chain
     (fun i => ((post2 sc cl x (post1 cl x (colAt sc cl x y y.length))).getD i default).xm) x.length
     (fun k hk => by
